@@ -164,13 +164,88 @@ def run(ctx):
             nb += 1
             ctx.report("model and implementation disagree (%s)" % kind, {"kind": kind, "object": repr(obj)[:2000], "theorem_or_correspondence": "C10 correspondence Model/Combine.v vs epgpy"}, found_input=False)
     # (c) '@' with derivatives: effect incl. partials vs sequential application (implementation-side oracle)
+    combD_stream(ctx, 40 if quick else 1000)
     partial_oracle(ctx, 100 if quick else 3000)
     # (d) real operators: shape / duration / name of combined operators
     real_chains(ctx, 10 if quick else 300)
     ctx.cov["trusted_base"] += ["hand-written model Model/Combine.v tied to opscalar/opmatrix _combine by exact comparison of the combined arrays",
-                                "first/second-order partials of '@'-combined operators: implementation-side comparison with sequential application only (testing)"]
+                                "first-order partials of '@': theorem combine_order1 under combined_ok, which is evaluated in Coq (combined_okb) on the derivative arrays and order1 of real a @ b objects (operands declaring parameters under their own names)",
+                                "second-order partials of '@', and first-order with aliases/coefficient maps: implementation-side comparison with sequential application only (testing; known findings)"]
     if not proved:
         ctx.report("proof obligations of C10 no longer check: %s" % ctx.failed_obligations, {"theorem_or_correspondence": ctx.failed_obligations}, found_input=bool(ctx.violations))
+
+
+# ---------------------------------------------------------------- (c') derivative arrays of '@' vs Proofs/CombineD.v
+HEADER_D = prog.HEADER + """From EPG Require Import Diff Combine DiffExact CombineD.
+Notation LScalar := (@LScalar QIops). Notation LMatrix := (@LMatrix QIops). Notation mkDop := (@mkDop QIops).
+"""
+
+
+def c_dop_u(lin, darrs, order1):
+    """dop literal with ONE numbering for variable and parameter names ('@' mixes them as dictionary keys)"""
+    r = dprog.vrank
+    d = core.clist(["(%d%%nat, %s)" % (r(k), c_lin(l)) for k, l in darrs.items()])
+    o1 = core.clist(["(%d%%nat, %s)" % (r(v), core.clist(["(%d%%nat, %s)" % (r(p_), core.qi(c)) for p_, c in cs.items()]))
+                     for v, cs in order1.items()])
+    return "(mkDop %s %s [] %s [] true [])" % (c_lin(lin), d, o1)
+
+
+def darrs_of_op(op):
+    from epgpy import opscalar
+    out = {}
+    if isinstance(op, opscalar.ScalarOp):
+        for k, (a, a0) in op.darrs.items():
+            out[k] = {"kind": "scalar", "arr": np.asarray(a).reshape(-1, 3)[0].tolist(),
+                      "arr0": None if a0 is None else np.asarray(a0).reshape(-1, 3)[0].tolist()}
+    else:
+        for k, (m, m0) in op.dmats.items():
+            out[k] = {"kind": "matrix", "arr": np.asarray(m).reshape(-1, 3, 3)[0].tolist(),
+                      "arr0": None if m0 is None else np.asarray(m0).reshape(-1, 3, 3)[0].tolist()}
+    return out
+
+
+def combD_stream(ctx, n):
+    """combined_okb (Proofs/CombineD.v) evaluated on what a @ b really holds: arrays, derivative arrays for every key,
+    merged order1 -- the hypothesis of theorem combine_order1; operands declare their parameters under their own names"""
+    import epgpy as epg
+    terms, meta = [], []
+    tries = 0
+    while len(terms) < n and tries < 40 * n:
+        tries += 1
+        o1, o2 = dprog.gen_dop(ctx.rng, False), dprog.gen_dop(ctx.rng, False)
+        if any(isinstance(o["order1_arg"], dict) for o in (o1, o2)):
+            continue
+        if not (o1["order1"] or o2["order1"]):
+            continue
+        for o in (o1, o2):
+            act = {p_ for cs in o["order1"].values() for p_ in cs}
+            o["darrs"] = {p_: l for p_, l in o["darrs"].items() if p_ in act}
+        try:
+            a, b = dprog.build_dop(o1), dprog.build_dop(o2)
+            comb = a @ b
+        except TypeError:
+            continue
+        except Exception as e:
+            ctx.report("'@' with first-order declarations raised %s: %s" % (type(e).__name__, str(e)[:160]), {"op1": repr(o1)[:1500], "op2": repr(o2)[:1500]},
+                       found_input=True, signature={"site": "@", "why": "raises-order1"})
+            continue
+        oc = c_dop_u(lin_of_op(comb), darrs_of_op(comb), {v: dict(cs) for v, cs in comb.order1.items()})
+        t1 = c_dop_u(o1["lin"], o1["darrs"], o1["order1"])
+        t2 = c_dop_u(o2["lin"], o2["darrs"], o2["order1"])
+        terms.append("(combined_okb QIops %s %s %s [0;1;2;3;4]%%nat)" % (t1, t2, oc))
+        meta.append((o1, o2))
+        ctx.count(("combD", repr(o1), repr(o2)), nontrivial=bool(o1["order1"]) and bool(o2["order1"]))
+    verdicts, errors = ctx.run_bool_cases("combD", HEADER_D, terms, chunk=10)
+    for e in errors:
+        ctx.report("correspondence shard failed to evaluate", {"theorem_or_correspondence": "C10 combined_okb (Proofs/CombineD.v)", "coq_output": e}, found_input=False)
+    nb = 0
+    for (o1, o2), v in zip(meta, verdicts):
+        if v is False and nb < 3:
+            nb += 1
+            ctx.report("derivative arrays / order1 of (op1 @ op2) are not what _combine is modelled to build (cd, entries_merged)",
+                       {"op1": repr(o1)[:1500], "op2": repr(o2)[:1500], "theorem_or_correspondence": "C10 combined_okb: hypothesis of combine_order1"},
+                       found_input=False)
+    ctx.cov["combD_cases"] = len(terms)
 
 
 def same_partials(a, b):
